@@ -27,7 +27,7 @@ fn weight(it: &Item) -> u64 {
     } as u64;
     let n = it.case.input.len().max(1) as u64 + if it.case.endless { 8 } else { 0 };
     if it.plan.single {
-        return 1 + w / 4;
+        return 1 + w / 4 + n / 100;
     }
     let pts = if it.case.cpoints || it.case.spoints { 3 } else { 1 };
     let steps = n * pts + 4 * w;
